@@ -128,7 +128,33 @@ func runSeqScenario(sp *subjectSpec, parts [][]int, fs []fault) (o seqOutcome) {
 		return
 	}
 	stp := sp.term.stepper(s)
-	defer func() { vkit.Try(stp.close) }()
+	closed := false
+	defer func() {
+		if !closed {
+			vkit.Try(stp.close)
+		}
+	}()
+	// finish closes the pipeline and applies the per-source rules: whatever the faults, the library
+	// must not call Next on a source it has closed, nor close a source twice (with real library
+	// streams as inputs the latter panics).
+	finish := func() {
+		closed = true
+		if pn := vkit.Try(stp.close); pn != nil && o.v == nil {
+			o.v = &viol{"panic", fmt.Sprintf("Close of the pipeline panicked: %s (%s)", pn.Msg, pn.JuniperFrame())}
+		}
+		if o.v != nil {
+			return
+		}
+		for _, si := range e.srcs {
+			if si.misuse == nil {
+				continue
+			}
+			if m := si.misuse(); m != "" {
+				o.v = &viol{"source-misused", "after the failed call was retried: " + m}
+				return
+			}
+		}
+	}
 
 	n := len(refConcat(parts))
 	maxAttempts := 8*(n+4) + 4*len(fs) + 24
@@ -217,6 +243,7 @@ func runSeqScenario(sp *subjectSpec, parts [][]int, fs []fault) (o seqOutcome) {
 		if !isPrefix(o.got, o.want) {
 			o.v = &viol{"fatal-output-not-prefix", fmt.Sprintf("outputs %v delivered before the error are not a prefix of the fault-free output %v of the items before the fault", o.got, o.want)}
 		}
+		finish()
 		return
 	}
 	// End: no fatal fault fired (a fired one is reported by the very call, checked above), so the
@@ -225,6 +252,7 @@ func runSeqScenario(sp *subjectSpec, parts [][]int, fs []fault) (o seqOutcome) {
 	if !equalInts(o.got, o.want) {
 		o.v = &viol{"output-" + classifyDiff(o.got, o.want), fmt.Sprintf("total output over all calls %v differs from the fault-free output %v", o.got, o.want)}
 	}
+	finish()
 	return
 }
 
@@ -378,6 +406,7 @@ type seqCaseCfg struct {
 	sub     int
 	n       int
 	pattern int
+	lens    []int // boundary cases: the length of every input
 }
 
 func drawClasses(rnd *vkit.Rand, n, pattern int) []int {
@@ -406,13 +435,32 @@ func sequential(r *vkit.Report) {
 	pairMaxLen := r.Scale(6, 8)
 	triples := r.Scale(60, 600)
 	var cfgs []seqCaseCfg
-	for si := range subs {
+	for si, sp := range subs {
+		if sp.boundary {
+			// every vector of input lengths in {0,1,2}^nparts
+			total := 1
+			for i := 0; i < sp.nparts; i++ {
+				total *= 3
+			}
+			for v := 0; v < total; v++ {
+				lens := make([]int, sp.nparts)
+				n := 0
+				for i, x := 0, v; i < sp.nparts; i, x = i+1, x/3 {
+					lens[i] = x % 3
+					n += lens[i]
+				}
+				cfgs = append(cfgs, seqCaseCfg{sub: si, n: n, pattern: 1, lens: lens})
+			}
+		}
+		if sp.boundaryOnly {
+			continue
+		}
 		for n := 0; n <= maxLen; n++ {
 			for p := 0; p < patterns; p++ {
 				if n == 0 && p > 0 {
 					continue
 				}
-				cfgs = append(cfgs, seqCaseCfg{si, n, p})
+				cfgs = append(cfgs, seqCaseCfg{sub: si, n: n, pattern: p})
 			}
 		}
 	}
@@ -423,10 +471,21 @@ func sequential(r *vkit.Report) {
 		in := makeInput(cfg.n, drawClasses(rnd, cfg.n, cfg.pattern), sp.unique)
 		var cuts []int
 		for i := 1; i < sp.nparts; i++ {
-			cuts = append(cuts, rnd.Intn(cfg.n+1))
+			if cfg.lens != nil {
+				prev := 0
+				if len(cuts) > 0 {
+					prev = cuts[len(cuts)-1]
+				}
+				cuts = append(cuts, prev+cfg.lens[i-1])
+			} else {
+				cuts = append(cuts, rnd.Intn(cfg.n+1))
+			}
 		}
 		sort.Ints(cuts)
 		parts := cutParts(in, cuts)
+		if cfg.lens != nil {
+			r.Count("scenarios by subject", "(boundary cases: input lengths from {0,1,2}) "+sp.name(), 0)
+		}
 		name := sp.name()
 
 		failed := false
@@ -450,7 +509,7 @@ func sequential(r *vkit.Report) {
 		r.Count("scenarios by fault kinds", "none", 1)
 		// an env just to enumerate the sources
 		e := newEnv(false, nil)
-		vkit.Try(func() { sp.build(e, parts) })
+		vkit.Try(func() { sp.build(e, parts).Close() })
 		singles := singleFaults(sp, e, cfg.n, len(base.attempts))
 
 		record := func(fs []fault, o *seqOutcome) {
